@@ -329,16 +329,16 @@ impl Node {
                     (Mode::Keyed(_), Some(d), _) => cx.schedule_keyed_event(Duration::from_nanos(d), __f, m).map(Some),
                     (Mode::Keyed(_), None, Some(t)) => cx.schedule_keyed_event(mtt(t), __f, m).map(Some),
                     (Mode::Periodic(p), Some(d), _) => cx
-                        .schedule_periodic_event(Duration::from_nanos(d), Duration::from_nanos(p), __f, m)
+                        .schedule_periodic_event(Duration::from_nanos(d), crate::case::period_dur(p), __f, m)
                         .map(|_| None),
                     (Mode::Periodic(p), None, Some(t)) => {
-                        cx.schedule_periodic_event(mtt(t), Duration::from_nanos(p), __f, m).map(|_| None)
+                        cx.schedule_periodic_event(mtt(t), crate::case::period_dur(p), __f, m).map(|_| None)
                     }
                     (Mode::KeyedPeriodic(_, p), Some(d), _) => cx
-                        .schedule_keyed_periodic_event(Duration::from_nanos(d), Duration::from_nanos(p), __f, m)
+                        .schedule_keyed_periodic_event(Duration::from_nanos(d), crate::case::period_dur(p), __f, m)
                         .map(Some),
                     (Mode::KeyedPeriodic(_, p), None, Some(t)) => cx
-                        .schedule_keyed_periodic_event(mtt(t), Duration::from_nanos(p), __f, m)
+                        .schedule_keyed_periodic_event(mtt(t), crate::case::period_dur(p), __f, m)
                         .map(Some),
                     _ => unreachable!(),
                 });
